@@ -527,7 +527,8 @@ static void run_exec(std::string const &mode,int reactor,int xno,int steps,int v
 	if(mode=="race") {
 		// an operation is armed; the peer makes the descriptor ready; the next driver step (which runs BEFORE the
 		// dispatched callable, see io_service::run_one) cancels / closes.  variant:
-		//  0 read-all, too few bytes arrive        1 write-all, short write after the wake-up     2 read-some, spurious EAGAIN after the wake-up
+		//  0 read-all, too few bytes arrive        1 write-all, socket buffer full again after the resumed short write
+		//  2 read-some, spurious EAGAIN after the wake-up (re-armed, ready again at once: benign)
 		//  3 read-some, data there (benign)        4 read-all, all bytes there (benign)           5 close() by the owner (EBADF, benign)
 		//  6 close() of an attached descriptor, read-all, too few bytes
 		int v=variant;
